@@ -1,0 +1,119 @@
+//go:build verif
+
+package vss
+
+// Verification hooks (build tag `verif` only; add-only, no behaviour change).
+//
+// verifTrace is called at the linearization points of the aggregator. Events
+// go to VerifTrace if set; if the environment variable VERIF_TRACE_FILE
+// names a file, an ndjson recorder is installed at start-up so that the
+// package's own tests can be validated against spec/VSSAggTrace.tla.
+
+import (
+	"encoding/json"
+	"fmt"
+	"os"
+	"sync"
+)
+
+const verifVariant = "pedersen"
+
+// VerifTrace, when non-nil, receives every event: ev and key/value pairs; the
+// pair ("agg", *Aggregator) names the object.
+var VerifTrace func(ev string, kv ...any)
+
+func verifTrace(ev string, kv ...any) {
+	if VerifTrace != nil {
+		VerifTrace(ev, kv...)
+	}
+}
+
+// VerifState projects an aggregator: responses (true = approval), badDealer,
+// timeout, t, whether a deal is recorded, and whether the aggregator is nil.
+func (a *Aggregator) VerifState() (resp map[uint32]bool, bad, timeout bool, t uint32, hasDeal, isNil bool) {
+	if a == nil {
+		return nil, false, false, 0, false, true
+	}
+	resp = make(map[uint32]bool, len(a.responses))
+	for k, r := range a.responses {
+		resp[k] = r.StatusApproved
+	}
+	return resp, a.badDealer, a.timeout, a.t, a.deal != nil, false
+}
+
+func verifCertified(a *Aggregator) (certified, enough string) {
+	return fmt.Sprint(a.DealCertified()), ""
+}
+
+type verifRecorder struct {
+	mu  sync.Mutex
+	f   *os.File
+	ids map[*Aggregator]int
+	seq map[int]int
+}
+
+func (t *verifRecorder) trace(ev string, kv ...any) {
+	if !t.mu.TryLock() { // re-entrant call (the projection calls DealCertified) or a concurrent one: dropped
+		return
+	}
+	defer t.mu.Unlock()
+	var a *Aggregator
+	args := map[string]any{}
+	for i := 0; i+1 < len(kv); i += 2 {
+		k, _ := kv[i].(string)
+		if k == "agg" {
+			a, _ = kv[i+1].(*Aggregator)
+			continue
+		}
+		args[k] = kv[i+1]
+	}
+	if a == nil {
+		return
+	}
+	id, ok := t.ids[a]
+	if !ok {
+		id = len(t.ids) + 1
+		t.ids[a] = id
+	}
+	t.seq[id]++
+	resp, bad, timeout, th, hasDeal, _ := a.VerifState()
+	n := len(a.verifiers)
+	table := map[string]string{}
+	extra := 0
+	for i := 0; i < n; i++ {
+		table[fmt.Sprint(i)] = "none"
+	}
+	for k, v := range resp {
+		switch {
+		case int(k) >= n:
+			extra++
+		case v:
+			table[fmt.Sprint(k)] = "app"
+		default:
+			table[fmt.Sprint(k)] = "comp"
+		}
+	}
+	cert, enough := verifCertified(a)
+	line, err := json.Marshal(map[string]any{
+		"variant": verifVariant, "mode": "hook", "obj": fmt.Sprintf("%s#%d.%d", verifVariant, os.Getpid(), id), "seq": t.seq[id],
+		"ev": ev, "args": args,
+		"state": map[string]any{"n": n, "resp": table, "extra": extra, "bad": bad, "tmo": timeout, "thr": th,
+			"hasDeal": hasDeal, "certified": cert, "enough": enough},
+	})
+	if err == nil {
+		_, _ = t.f.Write(append(line, '\n'))
+	}
+}
+
+func init() {
+	name := os.Getenv("VERIF_TRACE_FILE")
+	if name == "" {
+		return
+	}
+	f, err := os.OpenFile(name, os.O_APPEND|os.O_CREATE|os.O_WRONLY, 0o644)
+	if err != nil {
+		return
+	}
+	r := &verifRecorder{f: f, ids: map[*Aggregator]int{}, seq: map[int]int{}}
+	VerifTrace = r.trace
+}
